@@ -44,34 +44,149 @@ theorem traj_pose_roundtrip (c : Codec F) (h : Lawful c) (p : Pose F) : trajPose
   cases r with
   | none =>
     cases t with
-    | none => simp [poseToList, trajPoseOfFields]
+    | none => simp [poseToList, trajPoseOfFields, trajRotOfFields, trajTransOfFields, givenAreFloats]
     | some t =>
       obtain ⟨x, y, z⟩ := t
-      simp [poseToList, trajPoseOfFields, h.parse_render, (h.render_ok _).2]
+      simp [poseToList, trajPoseOfFields, trajRotOfFields, trajTransOfFields, givenAreFloats, h.parse_render, (h.render_ok _).2]
   | some r =>
     obtain ⟨w, x, y, z⟩ := r
     cases t with
-    | none => simp [poseToList, trajPoseOfFields, h.parse_render, (h.render_ok _).2]
+    | none => simp [poseToList, trajPoseOfFields, trajRotOfFields, trajTransOfFields, givenAreFloats, h.parse_render, (h.render_ok _).2]
     | some t =>
       obtain ⟨a, b, d⟩ := t
-      simp [poseToList, trajPoseOfFields, h.parse_render, (h.render_ok _).2]
+      simp [poseToList, trajPoseOfFields, trajRotOfFields, trajTransOfFields, givenAreFloats, h.parse_render, (h.render_ok _).2]
+
+theorem givenAreFloats_bad (c : Codec F) (bad : Str) (hbad : c.parse bad = none) (hnb : bad ≠ []) (toks : List Str)
+    (hmem : bad ∈ toks) : givenAreFloats c toks = false := by
+  unfold givenAreFloats
+  rw [Bool.eq_false_iff]
+  intro hall
+  have := List.all_eq_true.mp hall bad hmem
+  simp [hbad, hnb] at this
+
+theorem trajRot_bad (c : Codec F) (qw qx qy qz bad : Str) (hm : bad ∈ [qw, qx, qy, qz]) (hbad : c.parse bad = none)
+    (hnb : bad ≠ []) : trajRotOfFields c qw qx qy qz = Except.error DecodeErr.value := by
+  unfold trajRotOfFields
+  split
+  · simp only [List.mem_cons, List.mem_nil_iff, or_false] at hm
+    rcases hm with h | h | h | h <;> subst h <;> simp [hbad]
+  · simp [givenAreFloats_bad c bad hbad hnb _ hm]
+
+theorem trajTrans_bad (c : Codec F) (tx ty tz bad : Str) (hm : bad ∈ [tx, ty, tz]) (hbad : c.parse bad = none)
+    (hnb : bad ≠ []) : trajTransOfFields c tx ty tz = Except.error DecodeErr.value := by
+  unfold trajTransOfFields
+  split
+  · simp only [List.mem_cons, List.mem_nil_iff, or_false] at hm
+    rcases hm with h | h | h <;> subst h <;> simp [hbad]
+  · simp [givenAreFloats_bad c bad hbad hnb _ hm]
+
+/-- the D31 fix as a statement: a pose field of a trajectory row that is given (not empty) and is not a float is an ERROR,
+  whether or not the other fields of its group are given -/
+theorem traj_bad_number_is_an_error (c : Codec F) (qw qx qy qz tx ty tz bad : Str) (hm : bad ∈ [qw, qx, qy, qz, tx, ty, tz])
+    (hbad : c.parse bad = none) (hnb : bad ≠ []) :
+    ∃ e, trajPoseOfFields c [qw, qx, qy, qz, tx, ty, tz] = Except.error e := by
+  have hsplit : bad ∈ [qw, qx, qy, qz] ∨ bad ∈ [tx, ty, tz] := by
+    simp only [List.mem_cons, List.mem_nil_iff, or_false] at hm ⊢
+    rcases hm with h | h | h | h | h | h | h <;> simp [h]
+  unfold trajPoseOfFields
+  dsimp only
+  rcases hsplit with h | h
+  · rw [trajRot_bad c qw qx qy qz bad h hbad hnb]
+    exact ⟨_, rfl⟩
+  · rw [trajTrans_bad c tx ty tz bad h hbad hnb]
+    cases trajRotOfFields c qw qx qy qz with
+    | error e => exact ⟨_, rfl⟩
+    | ok r => exact ⟨_, rfl⟩
+
+theorem floatSafe_render (c : Codec F) (h : Lawful c) (x : F) : floatSafe c (c.render x) = Except.ok (some x) := by
+  simp [floatSafe, h.parse_render]
+
+theorem floatSafe_empty (c : Codec F) (h : Lawful c) : floatSafe c [] = Except.ok none := by
+  simp [floatSafe, h.parse_empty, strip, lstrip, rstrip]
 
 theorem rig_pose_roundtrip (c : Codec F) (h : Lawful c) (p : Pose F) : rigPoseOfFields c (poseToList c p) = Except.ok p := by
   obtain ⟨r, t⟩ := p
   cases r with
   | none =>
     cases t with
-    | none => simp [poseToList, rigPoseOfFields, h.parse_empty]
+    | none => simp [poseToList, rigPoseOfFields, floatArrayOrNone, floatSafe_empty c h]
     | some t =>
       obtain ⟨x, y, z⟩ := t
-      simp [poseToList, rigPoseOfFields, h.parse_render, h.parse_empty]
+      simp [poseToList, rigPoseOfFields, floatArrayOrNone, floatSafe_render c h, floatSafe_empty c h]
   | some r =>
     obtain ⟨w, x, y, z⟩ := r
     cases t with
-    | none => simp [poseToList, rigPoseOfFields, h.parse_render, h.parse_empty]
+    | none => simp [poseToList, rigPoseOfFields, floatArrayOrNone, floatSafe_render c h, floatSafe_empty c h]
     | some t =>
       obtain ⟨a, b, d⟩ := t
-      simp [poseToList, rigPoseOfFields, h.parse_render]
+      simp [poseToList, rigPoseOfFields, floatArrayOrNone, floatSafe_render c h]
+
+theorem floatArrayOrNone_bad (c : Codec F) (bad : Str) (hbad : c.parse bad = none) (hnb : strip bad ≠ []) :
+    ∀ toks : List Str, bad ∈ toks → floatArrayOrNone c toks = Except.error DecodeErr.value := by
+  have hb : floatSafe c bad = Except.error DecodeErr.value := by simp [floatSafe, hbad, hnb]
+  have hval : ∀ t e, floatSafe c t = Except.error e → e = DecodeErr.value := by
+    intro t e h
+    unfold floatSafe at h
+    split at h
+    · cases h
+    · split at h
+      · cases h
+      · cases h; rfl
+  intro toks
+  induction toks with
+  | nil => intro h; cases h
+  | cons t ts ih =>
+    intro hm
+    unfold floatArrayOrNone
+    cases hft : floatSafe c t with
+    | error e => rw [hval t e hft]
+    | ok v =>
+      dsimp only
+      rcases List.mem_cons.mp hm with h | h
+      · subst h; rw [hb] at hft; cases hft
+      · rw [ih h]
+
+theorem floatSafe_err (c : Codec F) (t : Str) (e : DecodeErr) (h : floatSafe c t = Except.error e) : e = DecodeErr.value := by
+  unfold floatSafe at h
+  split at h
+  · cases h
+  · split at h
+    · cases h
+    · cases h; rfl
+
+theorem floatArrayOrNone_err (c : Codec F) : ∀ (toks : List Str) (e : DecodeErr),
+    floatArrayOrNone c toks = Except.error e → e = DecodeErr.value := by
+  intro toks
+  induction toks with
+  | nil => intro e h; cases h
+  | cons t ts ih =>
+    intro e h
+    unfold floatArrayOrNone at h
+    cases hft : floatSafe c t with
+    | error e' => rw [hft] at h; cases h; exact floatSafe_err c t _ hft
+    | ok v =>
+      rw [hft] at h
+      dsimp only at h
+      cases hr : floatArrayOrNone c ts with
+      | error e' => rw [hr] at h; cases h; exact ih _ hr
+      | ok vs => rw [hr] at h; cases h
+
+/-- the D30 fix as a statement: a pose token that is neither a float nor blank is an ERROR of the rigs reader, wherever it stands -/
+theorem rig_bad_number_is_an_error (c : Codec F) (qw qx qy qz tx ty tz bad : Str) (hm : bad ∈ [qw, qx, qy, qz, tx, ty, tz])
+    (hbad : c.parse bad = none) (hnb : strip bad ≠ []) :
+    rigPoseOfFields c [qw, qx, qy, qz, tx, ty, tz] = Except.error DecodeErr.value := by
+  have key := floatArrayOrNone_bad c bad hbad hnb
+  have hsplit : bad ∈ [qw, qx, qy, qz] ∨ bad ∈ [tx, ty, tz] := by
+    simp only [List.mem_cons, List.mem_nil_iff, or_false] at hm ⊢
+    rcases hm with h | h | h | h | h | h | h <;> simp [h]
+  unfold rigPoseOfFields
+  dsimp only
+  rcases hsplit with h | h
+  · rw [key _ h]
+  · rw [key _ h]
+    cases hr : floatArrayOrNone c [qw, qx, qy, qz] with
+    | error e => rw [floatArrayOrNone_err c _ e hr]
+    | ok r => rfl
 
 theorem decodeVal_render (c : Codec F) (h : Lawful c) (v : Val F) : decodeVal c v.ty (renderVal c v) = some v := by
   cases v with
